@@ -303,6 +303,39 @@ def check(prog, res, tier):
         res.add(runs_k.judge('C03.e', f'{fi.name} passes its keyword options through to {target}', func_where(fi),
                              f'{target}(..., **kwargs)', chk_k, rule=f'C03.e.{fi.name}', unknown_ok=lambda u: True))
 
+        def entry_k0(it, fi=fi):
+            arg = ListV(items=None, elem=it.sym_bytes('rec', lo=1), length=it.sym_int('n', 0, None).lin) if 'list_to' in fi.name \
+                else it.sym_bytes('vbs_bytes')
+            it.user['mark'] = it.seqno
+            return it.call_function(fi, [arg], {})
+        runs_k0 = Runs(prog, entry_k0, summaries=io_summaries(prog), res=res)
+
+        def chk_k0(p, mode, target=target):
+            if p.outcome == 'loopback':
+                return []
+            c = ctor_of(p.interp, target)
+            if not c:
+                return [definite(f'{target} is not constructed')]
+            o, b = c[0]
+            fails = []
+            got = b.get('blocked')
+            if got is None and isinstance(b.get('**'), DictV):
+                got = b['**'].items.get('blocked')
+            if got is not None:
+                g = p.interp.resolve(got)
+                if not (isinstance(g, ConstV) and g.value is False):
+                    fails.append(definite(f'without options {target} is constructed with blocked={got!r}: plain VBS data may be treated as 1014 blocked'))
+            f = b.get('out_file', b.get('vbs_file'))
+            if not isinstance(f, FileV) or 'global' in f.tags:
+                fails.append(definite(f'{target} works on {f!r}, not on a file object created for this call (state would leak between calls)'))
+            else:
+                opened = [e for e in p.evs('open') if e.data['file'] is f and e.seq > p.interp.user['mark']]
+                if not opened:
+                    fails.append(definite('the in-memory file is not created inside the call'))
+            return fails
+        res.add(runs_k0.judge('C03.e', f'{fi.name} without options works unblocked on a fresh in-memory file', func_where(fi),
+                              f'{target}(io.BytesIO(...))', chk_k0, rule=f'C03.e.{fi.name}.default', unknown_ok=lambda u: True))
+
 
 def _read_request(p, ev):
     """size requested by the read event (direct read or Unblock1014.read call)."""
